@@ -62,7 +62,12 @@ func allShapes(n int) []shape {
 	return out
 }
 
-func makeEvents(s shape) []*tdag.TestEvent {
+func makeEvents(s shape) []*tdag.TestEvent { return makeEventsL(s, "") }
+
+// makeEventsL: lamports "" = consistent (above every parent's), "flat" = all 1, "reversed" = decreasing: the
+// buffer orders by parent hashes only and must not depend on Lamport times (checking them is the job of the
+// Check/Process callbacks, which this harness controls)
+func makeEventsL(s shape, lamports string) []*tdag.TestEvent {
 	evs := make([]*tdag.TestEvent, len(s))
 	for i, ps := range s {
 		e := &tdag.TestEvent{}
@@ -70,6 +75,12 @@ func makeEvents(s shape) []*tdag.TestEvent {
 		e.SetCreator(idx.ValidatorID(1 + i%3))
 		e.SetSeq(idx.Event(i + 1))
 		e.SetLamport(idx.Lamport(i + 1))
+		switch lamports {
+		case "flat":
+			e.SetLamport(1)
+		case "reversed":
+			e.SetLamport(idx.Lamport(len(s) - i))
+		}
 		var hs hash.Events
 		for _, p := range ps {
 			hs = append(hs, evs[p].ID())
@@ -126,6 +137,8 @@ type scenario struct {
 	ExtOn []int
 	// NoReleased: the application installs no Released callback (the per-copy bookkeeping must not depend on it)
 	NoReleased bool
+	// Lamports: "" consistent, "flat", "reversed" (see makeEventsL)
+	Lamports string
 }
 
 func (sc scenario) String() string {
@@ -133,7 +146,7 @@ func (sc scenario) String() string {
 	for _, x := range sc.Ops {
 		o = append(o, x.String())
 	}
-	return fmt.Sprintf("dag{%v} limit=%v failCheck=%v failProcess=%v connectDuringProcess=%v ops=[%s]", sc.Shape, sc.Limit, sc.FailCheck, sc.FailProcess, sc.ExtOn, strings.Join(o, " ")) + map[bool]string{true: " (no Released callback)", false: ""}[sc.NoReleased]
+	return fmt.Sprintf("dag{%v} limit=%v failCheck=%v failProcess=%v connectDuringProcess=%v ops=[%s]", sc.Shape, sc.Limit, sc.FailCheck, sc.FailProcess, sc.ExtOn, strings.Join(o, " ")) + map[bool]string{true: " (no Released callback)", false: ""}[sc.NoReleased] + map[bool]string{true: " lamports=" + sc.Lamports, false: ""}[sc.Lamports != ""]
 }
 
 var errInjected = errors.New("injected failure")
@@ -163,7 +176,7 @@ func (m *monitor) fail(sig, format string, a ...interface{}) {
 }
 
 func newMonitor(sc scenario) (*monitor, *dagordering.EventsBuffer) {
-	m := &monitor{sc: sc, evs: makeEvents(sc.Shape), byID: map[hash.Event]int{}, connected: map[int]bool{}, failC: map[int]bool{}, failP: map[int]bool{}}
+	m := &monitor{sc: sc, evs: makeEventsL(sc.Shape, sc.Lamports), byID: map[hash.Event]int{}, connected: map[int]bool{}, failC: map[int]bool{}, failP: map[int]bool{}}
 	for i, e := range m.evs {
 		m.byID[e.ID()] = i
 	}
@@ -458,6 +471,10 @@ func seqPart(c *core.Ctx, n int, extras bool, pairs bool) {
 			c.Count("push_orders", 1)
 			for _, l := range limits {
 				try(scenario{Shape: sh, Ops: append([]op{}, base...), Limit: l})
+			}
+			for _, lm := range []string{"flat", "reversed"} {
+				try(scenario{Shape: sh, Ops: append([]op{}, base...), Limit: inf, Lamports: lm})
+				try(scenario{Shape: sh, Ops: append([]op{}, base...), Limit: dag.Metric{Num: 2, Size: math.MaxUint64}, Lamports: lm})
 			}
 			for i := 0; i < n; i++ {
 				try(scenario{Shape: sh, Ops: append([]op{}, base...), Limit: inf, FailCheck: []int{i}})
